@@ -411,7 +411,9 @@ class TestCase:  # noqa: PLR0904
             True if all references are satisfiable, False if the statement must
             be dropped.
         """
-        for name in stmt.used_variables():
+        # Sorted, as the iteration order of the set depends on the string hash seed
+        # and decides in which order random choices are drawn below.
+        for name in sorted(stmt.used_variables()):
             if name in dropped:
                 return False
             if name in rename:
